@@ -335,8 +335,13 @@ def load_corpus():
         src = f.read_text()
         first = src.split("\n", 1)[0]
         entries = first[len("# entries:"):].split() if first.startswith("# entries:") else ["main"]
+        may_reject = []
+        for line in src.split("\n")[:4]:
+            if line.startswith("# may-reject:"):
+                may_reject = line[len("# may-reject:"):].split()
         for e in entries:
-            out.append({"id": f"corpus/{f.name}" + ("" if e == "main" else f":{e}"), "src": src, "entry": e, "feat": ["corpus"]})
+            out.append({"id": f"corpus/{f.name}" + ("" if e == "main" else f":{e}"), "src": src, "entry": e, "feat": ["corpus"],
+                        "may_reject": e in may_reject})
     return out
 
 
@@ -402,7 +407,7 @@ def run(ctx):
         if st in ("ok", "ok_validator_env_mismatch"):
             for f in p.get("feat", []):
                 feats[f] = feats.get(f, 0) + 1
-        if st == "rejected" and res["id"].startswith("corpus/"):
+        if st == "rejected" and res["id"].startswith("corpus/") and not p.get("may_reject"):
             ctx.report(f"corpus-rejected:{res['id']}", "correspondence", "a corpus program is no longer accepted",
                        {"id": res["id"], "error": res.get("error"), "msg": res.get("msg")}, found_input=False)
             continue
